@@ -105,17 +105,26 @@ func NewProxy(s *server) elton.Handler {
 		}
 
 		reqHeader := c.Request.Header
-		var ifModifiedSince, ifNoneMatch string
+		var ifModifiedSince, ifNoneMatch, requestRange, ifRange string
 		status := getCacheStatus(c)
 		// 针对fetching的请求，由于其最终状态未知，因此需要删除有可能导致304的请求，避免无法生成缓存
+		// range请求也需要删除，避免将206的部分响应作为完整数据缓存
 		if status == cache.StatusFetching {
 			ifModifiedSince = reqHeader.Get(elton.HeaderIfModifiedSince)
 			ifNoneMatch = reqHeader.Get(elton.HeaderIfNoneMatch)
+			requestRange = reqHeader.Get(headerRange)
+			ifRange = reqHeader.Get(headerIfRange)
 			if ifModifiedSince != "" {
 				reqHeader.Del(elton.HeaderIfModifiedSince)
 			}
 			if ifNoneMatch != "" {
 				reqHeader.Del(elton.HeaderIfNoneMatch)
+			}
+			if requestRange != "" {
+				reqHeader.Del(headerRange)
+			}
+			if ifRange != "" {
+				reqHeader.Del(headerIfRange)
 			}
 		}
 
@@ -169,6 +178,12 @@ func NewProxy(s *server) elton.Handler {
 		}
 		if ifNoneMatch != "" {
 			reqHeader.Set(elton.HeaderIfNoneMatch, ifNoneMatch)
+		}
+		if requestRange != "" {
+			reqHeader.Set(headerRange, requestRange)
+		}
+		if ifRange != "" {
+			reqHeader.Set(headerIfRange, ifRange)
 		}
 		if acceptEncodingChanged {
 			reqHeader.Set(elton.HeaderAcceptEncoding, acceptEncoding)
